@@ -17,6 +17,7 @@ dab == N("ab", FALSE, FALSE, FALSE, "", 2)                 \* sibling of "a" who
 L1 == N("l1.cmake", TRUE, TRUE, TRUE, "l1", 6)             \* written with a Latin-1 byte: not UTF-8
 XY == N("x-y.cmake", TRUE, TRUE, TRUE, "x-y", 7)             \* sorts before x.cmake ('-' < '.')
 HD == N(".h.cmake", TRUE, TRUE, TRUE, ".h", 0)                \* a hidden file: a CMake file like any other
+ED == N("é.cmake", TRUE, TRUE, TRUE, "é", 5)                   \* 'e' + combining acute: the name as the file system hands it out (not NFC)
 XD == N("x.d.cmake", TRUE, TRUE, TRUE, "x.d", 9)             \* agrees with x.cmake up to the first dot; only the last extension goes
 doutold == N("out-old", FALSE, FALSE, FALSE, "", 7)      \* a sibling whose name merely begins like the output directory's
 
@@ -33,7 +34,7 @@ Leaves == {Leaf(f) : f \in LeafFiles}
 \* one level below the input directory: a directory that may itself have sub-directories a / b
 Mids == Leaves \cup {Mk(f, (db :> l)) : f \in {{}, {X}, {T}}, l \in {Leaf({X}), Leaf({}), Leaf({Y, X})}}
               \cup {Mk({X}, (da :> Leaf({Z})) @@ (db :> Leaf({X})))}
-RootFiles == {{X}, {X, Z, T}, {X, Y, B}, {X, XY}, {X, XD}}
+RootFiles == {{X}, {X, Z, T}, {X, Y, B}, {X, XY}, {X, XD}, {X, ED}}
 MCTrees == {Mk({X}, (dl :> Leaf({X, Z})) @@ (da :> Leaf({X}))), Mk({X}, (da :> Mk({X}, (dl :> Mk({X}, (db :> Leaf({X}))))))), Mk({X}, (dl :> Leaf({T})))}
            \cup {Mk(f, NoCh) : f \in RootFiles}
            \cup {Mk(f, (da :> m)) : f \in RootFiles, m \in Mids}
@@ -43,6 +44,7 @@ SmallTrees == {Mk(f, NoCh) : f \in RootFiles}
            \cup {Mk({X, T}, (da :> Leaf({Y})) @@ (db :> Leaf({X})))}
            \cup {Mk({X, L1}, (da :> Leaf({X})))}
            \cup {Mk({X, XD}, (da :> Leaf({DE, B})))}
+           \cup {Mk({X, ED}, (da :> Leaf({ED})))}                    \* a name that Unicode normalisation would change
            \cup {Mk({X}, (da :> Mk({HD}, (db :> Leaf({X})))))}
            \* linked directories: next to a real one, and below one; with CMake files and without
            \cup {Mk({X}, (dl :> Leaf({X, Z})) @@ (da :> Leaf({X}))), Mk({X}, (da :> Mk({X}, (dl :> Mk({X}, (db :> Leaf({X}))))))), Mk({X}, (dl :> Leaf({T})))}       \* a directory whose only CMake file is hidden, with a sub-directory                \* names with several dots, at the top and below
@@ -56,12 +58,12 @@ Pabs(txt, path) == [txt |-> txt, comp |-> {}, dironly |-> FALSE, abs |-> <<TRUE,
 Pin(txt, parent, comp) == [txt |-> txt, comp |-> comp, dironly |-> FALSE, abs |-> <<FALSE, <<>>>>, parent |-> parent]
 \* the whole input is excluded: by its own absolute path, and by '<ancestor>/*' (everything below that ancestor)
 WholeInput == { {Pabs("@", <<>>)}, {Pabs("**/%P/*", <<>>)} }
-MCPatternSets == WholeInput \cup { {}, {Pin("**/b/*.cmake", "b", {"x.cmake", "z.cmake", "x-y.cmake", "d.e-f.cmake", "l1.cmake", "x.d.cmake", ".h.cmake"})}, {Pin("**/a/b", "a", {"b"})}, {P("x.cmake/", {"x.cmake"}, TRUE), P("b/", {"b"}, TRUE)}, {P("*.cmake/", {"x.cmake", "z.cmake", "x-y.cmake", "d.e-f.cmake", "l1.cmake", "x.d.cmake", ".h.cmake"}, TRUE)}, {P("a/", {"a"}, TRUE)}, {P("a/", {"a"}, TRUE), P("b", {"b"}, FALSE)}, {P("x.cmake", {"x.cmake"}, FALSE)},
+MCPatternSets == WholeInput \cup { {}, {Pin("**/b/*.cmake", "b", {"x.cmake", "z.cmake", "x-y.cmake", "d.e-f.cmake", "l1.cmake", "x.d.cmake", ".h.cmake", "é.cmake"})}, {Pin("**/a/b", "a", {"b"})}, {P("x.cmake/", {"x.cmake"}, TRUE), P("b/", {"b"}, TRUE)}, {P("*.cmake/", {"x.cmake", "z.cmake", "x-y.cmake", "d.e-f.cmake", "l1.cmake", "x.d.cmake", ".h.cmake", "é.cmake"}, TRUE)}, {P("a/", {"a"}, TRUE)}, {P("a/", {"a"}, TRUE), P("b", {"b"}, FALSE)}, {P("x.cmake", {"x.cmake"}, FALSE)},
                    {P("x.cmake", {"x.cmake"}, FALSE), P("z.cmake", {"z.cmake"}, FALSE)}, {P("*.CMAKE", {"Y.CMAKE"}, FALSE)},
-                   {P("**/b", {"b"}, FALSE)}, {Pabs("@/a/x.cmake", <<da, X>>)}, {P("*.cmake", {"x.cmake", "z.cmake", "x-y.cmake", "d.e-f.cmake", "l1.cmake", "x.d.cmake", ".h.cmake"}, FALSE), P("n.txt", {"n.txt"}, FALSE)},
+                   {P("**/b", {"b"}, FALSE)}, {Pabs("@/a/x.cmake", <<da, X>>)}, {P("*.cmake", {"x.cmake", "z.cmake", "x-y.cmake", "d.e-f.cmake", "l1.cmake", "x.d.cmake", ".h.cmake", "é.cmake"}, FALSE), P("n.txt", {"n.txt"}, FALSE)},
                    {P("b/", {"b"}, TRUE), P("x.cmake", {"x.cmake"}, FALSE)} }
-SmallPatternSets == WholeInput \cup { {}, {P("*.CMAKE", {"Y.CMAKE"}, FALSE)}, {Pin("**/b/*.cmake", "b", {"x.cmake", "z.cmake", "x-y.cmake", "d.e-f.cmake", "l1.cmake", "x.d.cmake", ".h.cmake"})}, {P("x.cmake/", {"x.cmake"}, TRUE), P("b/", {"b"}, TRUE)}, {P("z.cmake", {"z.cmake"}, FALSE)}, {P("a/", {"a"}, TRUE), P("b", {"b"}, FALSE)}, {P("x.cmake", {"x.cmake"}, FALSE), P("z.cmake", {"z.cmake"}, FALSE)},
-                      {P("*.cmake", {"x.cmake", "z.cmake", "x-y.cmake", "d.e-f.cmake", "l1.cmake", "x.d.cmake", ".h.cmake"}, FALSE)} }
+SmallPatternSets == WholeInput \cup { {Pabs("@/a/x.cmake", <<da, X>>)}, {}, {P("*.CMAKE", {"Y.CMAKE"}, FALSE)}, {Pin("**/b/*.cmake", "b", {"x.cmake", "z.cmake", "x-y.cmake", "d.e-f.cmake", "l1.cmake", "x.d.cmake", ".h.cmake", "é.cmake"})}, {P("x.cmake/", {"x.cmake"}, TRUE), P("b/", {"b"}, TRUE)}, {P("z.cmake", {"z.cmake"}, FALSE)}, {P("a/", {"a"}, TRUE), P("b", {"b"}, FALSE)}, {P("x.cmake", {"x.cmake"}, FALSE), P("z.cmake", {"z.cmake"}, FALSE)},
+                      {P("*.cmake", {"x.cmake", "z.cmake", "x-y.cmake", "d.e-f.cmake", "l1.cmake", "x.d.cmake", ".h.cmake", "é.cmake"}, FALSE)} }
 MCOutSub == [top |-> <<dout>>, sub |-> <<da, dout>>]
 NoDev == {}
 CurrentDev == {}
